@@ -228,6 +228,34 @@ def genRandomHistory (rng : Rng) (p : Prof) (len : Nat) : Rng × Array String :=
   let s := s.drain
   (s.rng, s.lines)
 
+/-- a capacity beyond 16 bits: a few vertices at small ids and a few at the same ids plus 65536 (ids that agree in their low 16
+    bits), groups among the high ones and among the low ones, data, reads (collections), re-creation — ids are `usize`, nothing
+    may depend on their low bits only -/
+def genBigCap (rng : Rng) (len : Nat) : Rng × Array String :=
+  let (rng, n) := rng.pick [2, 4, 16]
+  let cap := 65536 + 40
+  let s := GenSt.start rng n cap
+  let (rng, k) := s.rng.below 4
+  let s := { s with rng := rng }
+  let lows := (List.range (k + 3)).map (· + 2)
+  let highs := lows.map (· + 65536)
+  let s := (lows ++ highs).foldl (fun (s : GenSt) v => match s.tryOps [.add v] with | some x => x | none => s) s
+  let s := (List.range (len / 2 + 6)).foldl (fun (s : GenSt) _ =>
+    let (rng, hi) := s.rng.below 3
+    let pool := if hi = 0 then lows else highs
+    let (rng, v1) := rng.pick pool
+    let (rng, v2) := rng.pick pool
+    let (rng, l) := rng.pick (s.labels.take n)
+    let (rng, c) := rng.below 4
+    let (rng, hx) := genHex rng
+    let s := { s with rng := rng }
+    let ops : List Op := if c = 0 then [.put v1 hx] else if c = 1 then [.add v1] else [.bind v1 v2 l]
+    match s.tryOps ops with | some x => x | none => s) s
+  let s := { s with lines := s.lines.push "observe g0" }
+  let s := s.drain
+  let s := (lows ++ highs).foldl (fun (s : GenSt) v => match s.tryOps [.add v] with | some x => x | none => s) s
+  (s.rng, s.lines ++ #["observe g0"])
+
 /-! ### scripted prefixes aiming at the limits -/
 
 /-- create `k` groups of two (ids 2i, 2i+1), then a random body -/
@@ -967,7 +995,7 @@ def genProfile (profile : String) (seed : Nat) (count len : Nat) : Array String 
   for i in [0:count] do
     let (r', lines) :=
       match profile with
-      | "gc" => genRandomHistory rng profGc len
+      | "gc" => if i = 3 then genBigCap rng len else genRandomHistory rng profGc len
       | "rw" => genRandomHistory rng profRw len
       | "alloc" => genRandomHistory rng profAlloc len
       | "abuse" =>
